@@ -110,7 +110,8 @@ def snapshot (syms : List Str) (all : List Entry) (hot : List (Option Str)) :
       match r0.2, r1.2, r2.2 with
       | .orig, .orig, .orig => none
       | .cb k0, .cb k1, .cb k2 =>
-        if k0 = k1 ∧ k1 = k2 then some s!"{i}:{k0}:r+:{if e.shape.isEmpty || e.np == 0 then "a+" else "a-"}"
+        -- `r+:a+`: receiver and arguments arrive exactly (theorem C06.receiver_and_args_exact; since fix 79126f8 also for shape bodies)
+        if k0 = k1 ∧ k1 = k2 then some s!"{i}:{k0}:r+:a+"
         else some s!"{i}:k{k0}/k{k1}/k{k2}"
       | a, b, c => some s!"{i}:{showCall a}/{showCall b}/{showCall c}"
     snapshot syms all hot r2.1 (i + 1) rest (match tok with | some t => t :: acc | none => acc)
@@ -142,7 +143,7 @@ def handleGuard (rest0 : List String) : String :=
         | none, some b => Method.behavOf syms p b       -- promoted method: the wrapper calls the embedded type's method
         | x, _ => x
       let hits := (enumFrom 0 entriesB).filterMap (fun (i, eb) =>
-        (beh r.1.patched eb).map (fun k => s!"{i}:{k}:r+:{if eb.1.shape.isEmpty || eb.1.np == 0 then "a+" else "a-"}"))
+        (beh r.1.patched eb).map (fun k => s!"{i}:{k}:r+:a+"))
       let hs := steps.filterMap (fun st => match st with | .gnew h _ _ => some h | _ => none)
       let after := hs.foldl (fun s h => (MethodG.gstep syms entries s steps.length (.gunpatch h)).1) r.1
       let clean := entriesB.all (fun eb => (beh after.patched eb).isNone)
